@@ -31,6 +31,7 @@ import (
 	"os"
 	"strings"
 	"testing"
+	"time"
 
 	"github.com/bfenetworks/bfe/bfe_http2"
 	"pgregory.net/rapid"
@@ -50,13 +51,14 @@ type c37Pattern struct {
 	WarmReqs  int      `json:"warm_requests"`
 	PrePhases []int    `json:"pre_phases"` // stalled ping bursts that are drained afterwards
 	Stalled   bool     `json:"stalled"`
-	Segs      []c37Seg `json:"segments"` // relative weights; scaled to the flood size
+	GoAway    string   `json:"goaway,omitempty"` // "", "graceful" (server shutting down, GOAWAY(NO_ERROR)), "error" (provoked connection error)
+	Segs      []c37Seg `json:"segments"`         // relative weights; scaled to the flood size
 	Probe     int      `json:"probe_every"`
 }
 
 func (p c37Pattern) enc() string {
 	var sb strings.Builder
-	fmt.Fprintf(&sb, "%d/%d/%d/%v/%v/%d/", p.S2CCap, p.WarmPings, p.WarmReqs, p.PrePhases, p.Stalled, p.Probe)
+	fmt.Fprintf(&sb, "%d/%d/%d/%v/%v/%d/%s/", p.S2CCap, p.WarmPings, p.WarmReqs, p.PrePhases, p.Stalled, p.Probe, p.GoAway)
 	for _, s := range p.Segs {
 		fmt.Fprintf(&sb, "%s:%d:%d,", s.Kind, s.Count, s.Arg)
 	}
@@ -65,7 +67,18 @@ func (p c37Pattern) enc() string {
 
 var c37Kinds = []string{"ping", "hdr-malformed", "data-closed", "settings"}
 
-func c37Mandatory(kind string) bool { return kind != "settings" }
+// c37Mandatory: must the server answer this frame with a control frame of its own? After a
+// graceful GOAWAY only PING stays must-answer (requests on new streams and their DATA may
+// be discarded, 6.8); after an error GOAWAY nothing is (only the queue bound applies).
+func c37Mandatory(kind, goaway string) bool {
+	switch goaway {
+	case "graceful":
+		return kind == "ping"
+	case "error":
+		return false
+	}
+	return kind != "settings"
+}
 
 func c37Gen(rt *rapid.T) c37Pattern {
 	p := c37Pattern{}
@@ -77,6 +90,7 @@ func c37Gen(rt *rapid.T) c37Pattern {
 		p.PrePhases = append(p.PrePhases, rapid.SampledFrom([]int{1, 50, 3000, 9000}).Draw(rt, fmt.Sprintf("pre%d", i)))
 	}
 	p.Stalled = rapid.IntRange(0, 7).Draw(rt, "stalled") != 0
+	p.GoAway = rapid.SampledFrom([]string{"", "", "", "", "graceful", "graceful", "error"}).Draw(rt, "goaway")
 	shape := rapid.IntRange(0, 5).Draw(rt, "shape")
 	switch {
 	case !p.Stalled:
@@ -104,10 +118,10 @@ func c37Gen(rt *rapid.T) c37Pattern {
 }
 
 var c37Malformed = [][][2]string{
-	{{":method", "GET"}, {":scheme", "https"}, {"x-a", "b"}, {":path", "/late-pseudo"}},          // pseudo after regular
-	{{":method", "GET"}, {":method", "GET"}, {":scheme", "https"}, {":path", "/dup"}},            // duplicate pseudo
-	{{":method", "GET"}, {":scheme", "https"}, {":path", "/x"}, {":bogus", "1"}},                 // unknown pseudo
-	{{":method", "GET"}, {":scheme", "https"}, {":path", "/x"}, {"Upper-Case", "1"}},             // uppercase field name
+	{{":method", "GET"}, {":scheme", "https"}, {"x-a", "b"}, {":path", "/late-pseudo"}}, // pseudo after regular
+	{{":method", "GET"}, {":method", "GET"}, {":scheme", "https"}, {":path", "/dup"}},   // duplicate pseudo
+	{{":method", "GET"}, {":scheme", "https"}, {":path", "/x"}, {":bogus", "1"}},        // unknown pseudo
+	{{":method", "GET"}, {":scheme", "https"}, {":path", "/x"}, {"Upper-Case", "1"}},    // uppercase field name
 }
 
 type c37Frame struct {
@@ -138,6 +152,9 @@ func c37Run(rt tbx, rec *ev.Rec, p c37Pattern) {
 	if p.WarmReqs > 0 {
 		classes["warm-requests"] = true
 	}
+	if p.GoAway != "" {
+		classes["goaway-before-flood:"+p.GoAway] = true
+	}
 	done := func() { rec.Case(p.enc(), nt, keys(classes)...) }
 	fail := func(key string, w map[string]any, format string, args ...any) {
 		done()
@@ -145,7 +162,8 @@ func c37Run(rt tbx, rec *ev.Rec, p c37Pattern) {
 		rec.Fail(rt, key, w, format, args...)
 	}
 
-	r, err := startRig(rigOpts{S2CCap: p.S2CCap})
+	// bfe's GracefulShutdownTimeout is configurable up to 300 s; the flood takes well under a second
+	r, err := startRig(rigOpts{S2CCap: p.S2CCap, Graceful: 120 * time.Second})
 	if err != nil {
 		rt.Skipf("C37: %v", err)
 	}
@@ -230,13 +248,36 @@ func c37Run(rt tbx, rec *ev.Rec, p c37Pattern) {
 					return true
 				}
 			}
-			return r.cli.rerr != nil || r.cli.goAwayLocked() != nil
+			return r.cli.rerr != nil || r.cli.errGoAwayLocked() != nil
 		})
 		if !okw {
 			rt.Skipf("C37: watchdog draining pre-phase")
 		}
 		if !expectAlive(fmt.Sprintf("pre-phase %d (%d unread PINGs, below the limit, then drained)", pi, k)) {
 			return
+		}
+	}
+
+	// ---- optionally the connection is already in GOAWAY when the flood starts
+	switch p.GoAway {
+	case "graceful":
+		close(r.closeNotify) // what bfe_server does on graceful restart / reload
+		if !r.cli.waitFor(func() bool { return r.cli.goAwayLocked() != nil || r.cli.rerr != nil }) {
+			rt.Skipf("C37: watchdog waiting for the graceful GOAWAY")
+		}
+		if b := r.cli.barrier(); b != bAcked {
+			if b == bTimeout {
+				rt.Skipf("C37: watchdog after graceful GOAWAY")
+			}
+			// the server preferred to hang up right after its GOAWAY: nothing left to flood
+			classes["graceful:closed-at-once"] = true
+			done()
+			return
+		}
+	case "error":
+		r.cli.write(headersFrames(nextID+1, hpackLiteral([][2]string{{":method", "GET"}, {":scheme", "https"}, {":path", "/even"}, {":authority", "h2b.test"}}), true, nil, -1, 0))
+		if !r.cli.waitFor(func() bool { return r.cli.goAwayLocked() != nil || r.cli.rerr != nil }) {
+			rt.Skipf("C37: watchdog waiting for the provoked GOAWAY")
 		}
 	}
 
@@ -288,7 +329,7 @@ func c37Run(rt tbx, rec *ev.Rec, p c37Pattern) {
 				}
 				buf = append(buf, fb...)
 				frames = append(frames, c37Frame{kind: s.Kind, end: int64(len(buf))})
-				if c37Mandatory(s.Kind) {
+				if c37Mandatory(s.Kind, p.GoAway) {
 					mandatoryTotal++
 				}
 			}
@@ -361,7 +402,7 @@ func c37Run(rt tbx, rec *ev.Rec, p c37Pattern) {
 			break
 		}
 		accepted++
-		if c37Mandatory(f.kind) {
+		if c37Mandatory(f.kind, p.GoAway) {
 			acceptedMandatory++
 		}
 	}
@@ -377,6 +418,9 @@ func c37Run(rt tbx, rec *ev.Rec, p c37Pattern) {
 	dom := "mixed"
 	if len(kindsIn) == 1 {
 		dom = p.Segs[0].Kind
+	}
+	if p.GoAway != "" {
+		dom += "/after-" + p.GoAway + "-goaway"
 	}
 	if serverClosed {
 		classes["outcome:closed"] = true
@@ -442,8 +486,19 @@ func TestC37(t *testing.T) {
 			c37Run(t, rec, p)
 		}
 	}
+	if kinds != nil {
+		for _, ga := range []string{"graceful", "error"} {
+			if os.Getenv("H2B_C37_ONLY_ERROR_GOAWAY") != "" && ga != "error" { // development aid
+				continue
+			}
+			c37Run(t, rec, c37Pattern{S2CCap: 1, WarmPings: 1, Stalled: true, GoAway: ga, Segs: []c37Seg{{Kind: "ping", Count: 1}}, Probe: 97})
+		}
+	}
 	rapid.Check(t, func(rt *rapid.T) {
 		p := c37Gen(rt)
+		if os.Getenv("H2B_C37_ONLY_ERROR_GOAWAY") != "" && p.GoAway == "graceful" {
+			p.GoAway = "error"
+		}
 		c37Run(rt, rec, p)
 	})
 }
